@@ -92,6 +92,31 @@ class Gen:
         """Files whose components file fidx may refer to."""
         return {fidx} | set(self.files[fidx].imports)
 
+    def in_progress(self, fidx):
+        """Files that are still being read (DFS ancestors from the start file, imports in document order) when file
+        fidx is read: a by-name lookup (ref=/base=) from fidx into one of them goes against the reading order."""
+        if not hasattr(self, "_anc"):
+            self._anc = {}
+            seen = set()
+
+            def dfs(i, stack):
+                if i in seen:
+                    return
+                seen.add(i)
+                self._anc[i] = set(stack)
+                for j in self.files[i].imports:
+                    dfs(j, stack + [i])
+            dfs(0, [])
+        return self._anc.get(fidx, set())
+
+    def lookup_ok(self, fidx, c):
+        """May fidx refer to component c through ref=/base= under the current quarantine?"""
+        if "cycle-back-reference" in self.q and c.file in self.in_progress(fidx):
+            return False
+        if c.file in self.in_progress(fidx):
+            self.features.add("cycle-back-reference")
+        return True
+
     # ------------------------------------------------------------------ picking types
     def pick_simple_target(self, fidx, want=None):
         """Builtin or an earlier simple type visible from fidx."""
@@ -175,9 +200,11 @@ class Gen:
 
     def make_leaf(self, fidx, taken, in_choice=False):
         r = self.r
-        gels = [c for c in self.created if c.kind == "gelement" and c.file in self.visible(fidx) and c.name.snake not in taken]
+        gels = [c for c in self.created if c.kind == "gelement" and c.file in self.visible(fidx) and c.name.snake not in taken
+                and ("cycle-back-reference" not in self.q or c.file not in self.in_progress(fidx))]
         if gels and r.random() < self.cfg["p_ref"] and "element-ref" not in self.q:
             g = r.choice(gels)
+            self.lookup_ok(fidx, g)
             taken.add(g.name.snake)
             self.features.add("element-ref" + ("" if g.file == fidx else "-foreign"))
             mn, mx = self.occurs()
@@ -262,11 +289,13 @@ class Gen:
         base = None
         taken = set()
         if r.random() < self.cfg["p_ext"] and "extension" not in self.q:
-            cands = [c for c in self.created if c.kind == "complex" and c.file in self.visible(fidx) and ext_depth(c) < 3]
+            cands = [c for c in self.created if c.kind == "complex" and c.file in self.visible(fidx) and ext_depth(c) < 3
+                     and ("cycle-back-reference" not in self.q or c.file not in self.in_progress(fidx))]
             if cands:
                 other = [c for c in cands if c.file != fidx]
                 c = r.choice(other if other and r.random() < self.cfg["p_cross_file"] else cands)
                 base = TypeRef(c.name.xml, c.file, c)
+                self.lookup_ok(fidx, c)
                 taken |= {m_snake for m_snake in flat_member_snakes(c)}
                 self.features.add("extension" + ("" if c.file == fidx else "-foreign"))
         content = self.make_content(fidx, taken)
@@ -281,8 +310,8 @@ class Gen:
         nm = self.names.fresh(set(), taken_elems)
         if r.random() < 0.45:
             t = self.pick_member_type(fidx)
-            if not t.builtin:
-                self.features.add("typed-global-element")
+            if not t.builtin or "builtin-typed-global-element" not in self.q:
+                self.features.add("typed-global-element" if not t.builtin else "builtin-typed-global-element")
                 return GlobalElement(nm, type=t, file=fidx)
         content = self.make_content(fidx, set(), allow_empty=False)
         return GlobalElement(nm, content=content, file=fidx, doc=self.doc())
